@@ -12,7 +12,7 @@ import (
 const c41Rule = "cases = PRNG-determined histories on three real chains (A-B with v1 channel, its v2 alias and a v2 client pair; B-C with v1 channel and alias): ICS-20 transfers of native tokens of small supply and of vouchers in both directions " +
 	"(amounts aimed below / exactly at / one above the remaining quota), failing receivers, disabled receives, forward memos (asynchronous acknowledgements, hop timeouts and retries), success and error acknowledgements, timeouts, clock jumps across hour epochs, " +
 	"MsgAddRateLimit / MsgUpdateRateLimit / MsgRemoveRateLimit / MsgResetRateLimit by the authority, whitelisted pairs, blacklisted denominations, keeper-level replays of refund callbacks for settled packets, and directed histories that end a window while a counted packet is in flight; " +
-	"after every block the real Flow of every rate limit is compared with a reference model written from the statement; distinct = distinct sequences of (operation, outcome class); non-trivial = at least one administrative operation and one refund happened"
+	"after every block the real Flow of every rate limit is compared with a reference model written from the statement; one evaluation = one operation whose blocks were compared with the model (plus one per whole case); distinct = distinct (previous operation class > operation/outcome class) pairs and distinct whole-case traces; trivial = empty commits, aborted operations, cases without both an administrative operation and a refund"
 
 func TestC41(t *testing.T) {
 	c := kit.NewCheck(t, "C41", "exploration", c41Rule)
@@ -20,10 +20,13 @@ func TestC41(t *testing.T) {
 	c.Assume("bank supply, SDK tx atomicity, light-client proof verification and the module's hour-epoch counter (read as the clock of the windows) are the trusted base; application stack as wired in testing/simapp (rate-limit → packet-forward → transfer; transfer v2 behind rate-limit v2)")
 	c.Assume("administrative messages are executed through the module's msg server with the authority address in their own block; whitelist / blacklist entries are set at keeper level (the module has no message for them)")
 	for k, v := range map[string]int64{
-		"flows_compared": 3000, "admissions_judged_send": 100, "admissions_judged_recv": 60, "admissions_exactly_at_quota": 3,
-		"refunds_in_window_send": 20, "hour_epochs": 10, "window_resets_at_epoch": 5, "admin_add": 20, "admin_update": 8, "admin_remove": 5, "admin_reset": 5,
-		"recv_error": 15, "recv_async": 10, "async_acks_error": 4, "duplicate_refund_callbacks_injected": 10, "packets_v1": 80, "packets_alias": 20, "packets_v2": 10,
-		"sends_refused_by_quota": 10, "accepted_uncounted_send": 10,
+		"flows_compared": 2500, "admissions_judged_send": 70, "admissions_judged_recv": 12, "admissions_exactly_at_quota": 5,
+		"refunds_in_window_send": 10, "refunds_in_window_recv": 1, "hour_epochs": 40, "window_resets_at_epoch": 70,
+		"admin_add": 45, "admin_update": 12, "admin_remove": 7, "admin_reset": 13,
+		"recv_error": 30, "recv_async": 14, "async_acks_error": 11, "duplicate_refund_callbacks_injected": 18, "refund_events_for_finished_packets": 8,
+		"packets_v1": 80, "packets_alias": 40, "packets_v2": 20,
+		"sends_refused_by_quota": 9, "receives_refused_by_quota": 12, "sends_refused_by_blacklist": 5, "accepted_uncounted_send": 10,
+		"directed_zero_channel_value_histories": 1, "directed_stale_window_histories_update": 2, "directed_stale_window_histories_remove-add": 2,
 	} {
 		c.Floor(k, v)
 	}
@@ -49,6 +52,15 @@ func TestC41(t *testing.T) {
 				cls := s.Step(pr)
 				if cls == "" {
 					continue
+				}
+				// one evaluation per operation whose block(s) were compared with the model; its class is the
+				// operation/outcome class in the context of the previous one (commit-only operations are trivial)
+				if cls == "commit" || cls == "abort" {
+					c.Eval("")
+				} else if len(classes) > 0 {
+					c.Eval(classes[len(classes)-1] + ">" + cls)
+				} else {
+					c.Eval(">" + cls)
 				}
 				classes = append(classes, cls)
 				switch {
